@@ -30,6 +30,7 @@ type c09World struct {
 	onConn map[string][]string
 	// per connection: hosts whose keep-alive arrived on it (also part of the key)
 	kaConn map[string]map[string]bool
+	srv    *jsonrpc2.Server // the production registration, built on first use
 }
 
 var c09Hosts = []string{"A", "B"}
@@ -81,6 +82,36 @@ func (w *c09World) apply(ev string) error {
 		}
 		w.kaConn[c][h] = true
 		return err
+	case "goodbye":
+		// the host sends the good-bye its agent sends on shutdown (vipnode_disconnect, a name the pool
+		// binary registers) over connection c. A pool that answers it (rather than method-not-found)
+		// has taken the host off its list; either way what is registered stays consistent with the
+		// connections that are open.
+		h, c := f[1], f[2]
+		if w.srv == nil {
+			w.srv = &jsonrpc2.Server{}
+			if err := vh.RegisterProd(w.srv, w.pw); err != nil {
+				panic(err)
+			}
+		}
+		id := c09Ident(h)
+		n := w.pw.NextNonce()
+		msg, err := vh.ParseMessage(fmt.Sprintf(`{"jsonrpc":"2.0","id":1,"method":"vipnode_disconnect","params":[%q,%q,%d]}`, id.SignNode("vipnode_disconnect", n), id.NodeID, n))
+		if err != nil {
+			panic(err)
+		}
+		resp := w.srv.Handle(vh.CtxWith(w.pw.Host(c).Service()), msg)
+		if resp != nil && resp.Response != nil && resp.Error == nil {
+			delete(w.reg, h)
+			var l []string
+			for _, x := range w.onConn[c] {
+				if x != h {
+					l = append(l, x)
+				}
+			}
+			w.onConn[c] = l
+		}
+		return nil
 	case "abandoned-peer-request":
 		// a client asks for hosts and hangs up while they are being asked (its context ends before
 		// any host has answered): the hosts' connections are as open as before
@@ -107,6 +138,9 @@ func (w *c09World) events() []string {
 			evs = append(evs, "connect "+h+" "+c)
 			if _, registered := w.reg[h]; registered {
 				evs = append(evs, "keepalive "+h+" "+c)
+				if w.reg[h] == c {
+					evs = append(evs, "goodbye "+h+" "+c)
+				}
 			}
 		}
 		evs = append(evs, "close "+c)
